@@ -155,15 +155,51 @@ def through_file(props, volts):
     return second
 
 
+def int_typed(props):
+    """the same configuration with every whole-valued double property stored as an Int32 property (a file written by another tool)"""
+    out = []
+    for name, t, hx in props:
+        if t == 'DoubleFloat':
+            v = struct.unpack('<d', bytes.fromhex(hx))[0]
+            if v == int(v) and abs(v) < 2 ** 31:
+                out.append([name, 'Int32', struct.pack('<i', int(v)).hex()])
+                continue
+        out.append([name, t, hx])
+    return out
+
+
+def chained(props):
+    """the sensor scale as scale 1 reading scale 0, a Linear scale turning stored millivolts into volts (Input_Source = 0)"""
+    out = [R._u('NI_Number_Of_Scales', 2), R._s('NI_Scale[0]_Scale_Type', 'Linear'), R._d('NI_Scale[0]_Linear_Slope', 1e-3),
+           R._d('NI_Scale[0]_Linear_Y_Intercept', 0.0), R._u('NI_Scale[0]_Linear_Input_Source', 0xFFFFFFFF)]
+    for name, t, hx in props:
+        if name == 'NI_Number_Of_Scales':
+            continue
+        name = name.replace('NI_Scale[0]_', 'NI_Scale[1]_')
+        if name.endswith('_Input_Source'):
+            hx = struct.pack('<I', 0).hex()
+        out.append([name, t, hx])
+    return out
+
+
 def check(kind, cfg, xs, volts, make, props, res):
     """feed volts to the (already constructed) scaling object and to a file; compare with xs"""
-    for via in ('class', 'file'):
-        if via == 'file' and len(xs) > 400:
+    for via in ('class', 'file', 'file-int-typed', 'file-chained'):
+        if via.startswith('file') and len(xs) > 400:
             xs_, volts_ = xs[::max(1, len(xs) // 200)], volts[::max(1, len(xs) // 200)]
         else:
             xs_, volts_ = xs, volts
+        if via != 'file' and via.startswith('file') and (cfg.get('rl') not in (None, 0.0) or cfg.get('a', 3.9083e-3) != 3.9083e-3
+                                                             or cfg.get('nu') == 0.0 or cfg.get('gf') == 1.9):
+            continue      # the two alternative spellings are run on a sub-grid of the configurations
         if via == 'class':
             r = H.guarded(lambda: make.scale(np.array(volts_, dtype=np.float64)))
+        elif via == 'file-int-typed':
+            if int_typed(props) == props:
+                continue
+            r = H.guarded(lambda: through_file(int_typed(props), list(volts_)))
+        elif via == 'file-chained':
+            r = H.guarded(lambda: through_file(chained(props), [v * 1000.0 for v in volts_]))
         else:
             r = H.guarded(lambda: through_file(props, list(volts_)))
         res['counters']['points'] += len(xs_)
@@ -225,7 +261,7 @@ def run_part(item):
         step = 0.25 if tier == 'thorough' else 5.0
         for rl, r1, (a, b, c), off, val in itertools.product((0.0, 1.5), (5000.0, 10000.0),
                                                               ((1.295361e-3, 2.343159e-4, 1.018703e-7), (1.125308852122e-3, 2.34711863267e-4, 8.5663516e-8)),
-                                                              (0.0, 273.15), ((1e-4,) if exc == 'current' else (2.5,))):
+                                                              (0.0, 273.15), ((1e-4,) if exc == 'current' else (2.5, 5.0))):
             Tks = [273.15 + t for t in np.arange(-40.0, 150.0 + 1e-9, step)]
             k = lead_factor(exc, wiring)
             volts = []
